@@ -69,8 +69,12 @@ def charge_rule(ctx: Ctx):
                   why_bad=f"vehicle pays {flow.dump(a_send)[:120]} but the station receives {flow.dump(a_recv)[:120]}", construct="charge:debit!=credit")
         # structure of the amount
         add_args = [states.ndump(a) for a in add.args]
+        # conservation needs ONE plug object throughout (energy added, energy type, booking), looked up by this charger id;
+        # WHICH object (the station's own instance vs the environment's template) bounds the rate and is C04's clause
+        if len(add.args) >= 2 and cid in {x.id for x in ast.walk(add.args[1]) if isinstance(x, ast.Name)}:
+            charger = add_args[1]
         ok_add = add_args[:2] == [veh, charger] and states.ndump(add.func.value) == f"{env}.mechatronics.get({veh}.mechatronics_id)"
-        ctx.check(ok_add, "D1", "DU.same-value", "charge(): add_energy is applied to this vehicle with the plug of this station", fn, adds[0].raw,
+        ctx.check(ok_add, "D1", "DU.same-value", "charge(): add_energy is applied to this vehicle with a plug looked up by this charger id", fn, adds[0].raw,
                   why_bad=f"add_energy({', '.join(add_args)[:200]})", construct="charge:add-energy-args")
         et = f"{charger}.energy_type"
         price = f"{station}.get_price({cid})"
